@@ -766,6 +766,40 @@ func r11_6(c *Ctx) {
 	if n == 0 {
 		c.bad(fnLabel(fn)+":no-field-parser-error", P.pos(fn.Pos()), "Parser.Err never returns the field parser's error: an unterminated last line would not be reported as ErrUnexpectedEOF")
 	}
+	// a read error is reported as itself: where the scanner's error was found non-nil, it is what is returned
+	{
+		var bad ssa.Instruction
+		edges := 0
+		for _, j := range ifsIn(fn) {
+			sn, ok := nilEdge(j, isScannerErrLike)
+			if !ok {
+				continue
+			}
+			edges++
+			forward([]startPoint{atEdge(j.Block(), 1-sn)}, func(in ssa.Instruction) searchAction {
+				r, isR := in.(*ssa.Return)
+				if !isR || r.Parent() != fn || len(r.Results) != 1 {
+					return cont
+				}
+				for _, sv := range sources(r.Results[0]) {
+					if isNilConst(sv) {
+						continue // cannot be the value on the edge that found it non-nil (a nil-safe query helper)
+					}
+					if !isScannerErrLike(sv) {
+						bad = r
+					}
+				}
+				return stopPath
+			})
+		}
+		if edges > 0 {
+			pos := P.pos(fn.Pos())
+			if bad != nil {
+				pos = P.ipos(bad)
+			}
+			c.check(bad == nil, fnLabel(fn)+":read-error-as-itself", pos, "a non-nil scanner error is returned unchanged", "on the path where the scanner reported a read error Parser.Err can return something else (a translation to ErrUnexpectedEOF, nil, …): the read error is not reported as itself")
+		}
+	}
 }
 
 func r11_7(c *Ctx) {
